@@ -148,7 +148,7 @@ MOD = ['self._bytes[*]', 'self._cur_byte_idx', 'self._cur_bit_idx']
 
 BLOCKS = {
     # one iteration of the inner loop: append bit `bit_idx` of the current byte
-    'bit': dict(where='loop[0.0].body', locals=BLOCK_LOCALS,
+    'bit': dict(where='loop[0.0].body', locals=BLOCK_LOCALS, shards=6,
                 requires=['pb_ok(self)', '0 <= bit_idx and bit_idx <= 7',
                           '0 <= byte_idx and byte_idx < len(value_bytes)'],
                 ensures=['pb_ok(self)', 'self._cur_bit_idx <= 6', 'pb_nbits(self) == old(pb_nbits(self)) + 1',
@@ -156,7 +156,7 @@ BLOCKS = {
                          'self._bytes is old(self._bytes)'],
                 modifies=MOD, lemmas=['bigend_frame']),
     # the inner loop: append the low bit_start+1 bits of the current byte, most significant first
-    'byte': dict(where='loop[0.0]', locals=BLOCK_LOCALS,
+    'byte': dict(where='loop[0.0]', locals=BLOCK_LOCALS, shards=10,
                  requires=['pb_ok(self)', '0 <= bit_start and bit_start <= 7',
                            '0 <= byte_idx and byte_idx < len(value_bytes)'],
                  ensures=['pb_ok(self)', 'self._cur_bit_idx <= 6', 'pb_nbits(self) == old(pb_nbits(self)) + bit_start + 1',
